@@ -56,6 +56,9 @@
 ; big-endian fixed-width integers: a function of the bytes they occupy
 (declare-fun f8 (Int Int Int Int Int Int Int Int) Int)
 (declare-fun f4 (Int Int Int Int) Int)
+; ranges of the fixed-width values (they are 64- and 32-bit quantities)
+(assert (forall ((a Int) (b Int) (c Int) (d Int) (e Int) (f Int) (g Int) (h Int)) (! (and (<= 0 (f8 a b c d e f g h)) (< (f8 a b c d e f g h) 18446744073709551616)) :pattern ((f8 a b c d e f g h)))))
+(assert (forall ((a Int) (b Int) (c Int) (d Int)) (! (and (<= 0 (f4 a b c d)) (< (f4 a b c d) 4294967296)) :pattern ((f4 a b c d)))))
 (define-fun be64 ((r (Array Int Int)) (o Int)) Int
   (f8 (select r o) (select r (+ o 1)) (select r (+ o 2)) (select r (+ o 3)) (select r (+ o 4)) (select r (+ o 5)) (select r (+ o 6)) (select r (+ o 7))))
 (define-fun be32 ((r (Array Int Int)) (o Int)) Int
